@@ -111,11 +111,13 @@ func socket(ctx context.Context, net string, family, sotype, proto int, ipv6only
 	}
 	err = setDefaultSockopts(fd, family, sotype, ipv6only)
 	if err != nil {
+		verifFD(-vfdDialSocket, nil, fd)
 		syscall.Close(fd)
 		return nil, err
 	}
 
 	netfd = newNetFD(fd, family, sotype, net)
+	verifFD(vfdConn, netfd, fd)
 	err = netfd.dial(ctx, laddr, raddr)
 	if err != nil {
 		netfd.Close()
